@@ -39,7 +39,7 @@ RULE = ('a seeded history masters a valid image of <= ~400 sectors; 24 (quick) /
         'damaged bytes lie inside an object the decoders mapped; distinct = distinct (fault kind, structure/field, value class) triples')
 BUDGET = {'quick': 45, 'thorough': 900}
 PROBES = ['variants_opened', 'open_succeeded', 'open_refused_documented', 'fault:truncate', 'fault:torn-prefix', 'fault:lost-writes', 'fault:zero-sector',
-          'fault:copy-sector', 'fault:stale-sector', 'fault:field', 'fault:field-pair', 'fault:seek-end', 'fault:random-bytes', 'fault:alias-dirs', 'fault:struct-extremes', 'udf_tag_refixed',
+          'fault:copy-sector', 'fault:stale-sector', 'fault:field', 'fault:field-pair', 'fault:seek-end', 'fault:random-bytes', 'fault:alias-dirs', 'fault:dup-chain', 'fault:struct-extremes', 'udf_tag_refixed',
           'memory_measured', 'images_with_udf', 'images_with_rr', 'images_with_eltorito', 'images_with_hybrid']
 ASSUMPTIONS = ['"promptly" = within 50x the interpreter events of opening the undamaged parent (+2M), a deterministic measure independent of machine load',
                'the 30 s wall watchdog only guards against a stall outside Python code']
@@ -81,10 +81,12 @@ def generate(seed, tier='quick'):
             f = [{'kind': 'field', 'pick': r.random(), 'value': r.choice(VALUES), 'both_endian': r.random() < 0.7, 'refix': r.random() < 0.7, 'rnd': r.getrandbits(32)}]
             if r.random() < 0.3:
                 f.append({'kind': 'field', 'pick': r.random(), 'value': r.choice(VALUES), 'both_endian': r.random() < 0.7, 'refix': r.random() < 0.7, 'rnd': r.getrandbits(32)})
-        elif k < 0.865:
+        elif k < 0.845:
             f = [{'kind': 'seek-end'}]
-        elif k < 0.875:
+        elif k < 0.855:
             f = [{'kind': 'alias-dirs', 'seed': r.getrandbits(32), 'p': r.choice((0.3, 1.0, 1.0)), 'to': r.choice(('child', 'child', 'self', 'parent'))}]
+        elif k < 0.865:
+            f = [{'kind': 'dup-chain', 'copies': r.choice((1, 2, 3))}]
         elif k < 0.9:
             f = [{'kind': 'struct-extremes', 'pick': r.random(), 'seed': r.getrandbits(32)}]
         else:
@@ -280,6 +282,35 @@ def apply_faults(flist, data, prev_data, writes, fields, boundaries, ctx):
             except Exception:
                 pass
             labels.append('alias-dirs:' + spec['to'])
+        elif k == 'dup-chain':
+            # a hostile image of the zip-bomb kind: along the deepest chain of directories every directory lists the next
+            # one several times (further copies of its record in the slack behind the last record)
+            try:
+                img = dec_iso.decode(bytes(ba))
+                t = img.trees.get('iso')
+                deepest = None
+                for d in (t.dirs if t is not None else []):
+                    if deepest is None or (d.path or '').count('/') > (deepest.path or '').count('/'):
+                        deepest = d
+                chain = []
+                while deepest is not None and deepest.parent is not None:
+                    chain.append(deepest)
+                    deepest = deepest.parent
+                for child in chain:
+                    par = child.parent
+                    kids = (par.children or [])
+                    end = max(c.off + c.length for c in kids)
+                    rec = bytes(ba[child.off:child.off + child.length])
+                    room_end = (end // 2048 + 1) * 2048
+                    for i in range(spec['copies']):
+                        if end + len(rec) > room_end:
+                            break
+                        ba[end:end + len(rec)] = rec
+                        end += len(rec)
+                        touched.append(end)
+            except Exception:
+                pass
+            labels.append('dup-chain')
         elif k == 'struct-extremes' and fields:
             # every count, size and length of one structure goes to an extreme at once
             import random as _r
@@ -287,6 +318,9 @@ def apply_faults(flist, data, prev_data, writes, fields, boundaries, ctx):
             def countlike(m_):
                 return any(w in str(m_).lower() for w in ('num', 'count', 'size', 'len', 'entries', 'n_'))
             pool = [f for f in fields if countlike(f[2])] or fields
+            small = [f for f in pool if str(f[2]).startswith(('gpt.', 'mbr.', 'eltorito.', 'apm.'))]
+            if small and rr.random() < 0.4:
+                pool = small          # the small fixed-size structures, where a few fields decide how much is read
             f0 = pool[int(spec['pick'] * len(pool)) % len(pool)]
             sec = f0[0] // 2048
             n = 0
